@@ -5,7 +5,9 @@
 #define VERIF_BACKEND_SPEC_H
 extern unsigned long V_BASE[2];
 extern unsigned long V_SIZE[2];
-extern _Bool g_backend_nonnull;   /* 1: call sites must prove the backend is never handed 0/null (C04) */
+extern _Bool g_backend_nonnull;
+extern unsigned long g_expect_example;   /* != 0: the example address the core must hand to the backend (C04) */
+extern unsigned long g_expect_malloc_size;   /* 1: call sites must prove the backend is never handed 0/null (C04) */
 
 #define V_LIVE(k) (V_SIZE[k] != 0)
 #define V_IN(k, a) (V_SIZE[k] != 0 && (uintptr_t)(a) >= V_BASE[k] && (uintptr_t)(a) - V_BASE[k] < V_SIZE[k])
@@ -16,7 +18,12 @@ extern _Bool g_backend_nonnull;   /* 1: call sites must prove the backend is nev
 
 /* well-formed address space: regions (when live) sit in the canonical user half, are at most 4 GiB
  * (32-bit guest pointers) and are disjoint */
-#define V_REGION_WF(k) (V_SIZE[k] == 0 || (V_BASE[k] >= 4096UL && V_BASE[k] <= 0x7fff00000000UL && V_SIZE[k] <= 0x100000000UL))
+/* numeric view: canonical user half (default).  Object view (cells are CBMC objects whose integer address carries
+ * the object number in the top bits): units define V_MAX_BASE larger. */
+#ifndef V_MAX_BASE
+#define V_MAX_BASE 0x7fff00000000UL
+#endif
+#define V_REGION_WF(k) (V_SIZE[k] == 0 || (V_BASE[k] >= 4096UL && V_BASE[k] <= V_MAX_BASE && V_SIZE[k] <= 0x100000000UL))
 #define V_DISJOINT (V_SIZE[0] == 0 || V_SIZE[1] == 0 || V_BASE[0] + V_SIZE[0] <= V_BASE[1] || V_BASE[1] + V_SIZE[1] <= V_BASE[0])
 #define V_BACKEND_WF (V_REGION_WF(0) && V_REGION_WF(1) && V_DISJOINT)
 #endif
